@@ -108,11 +108,16 @@ def run(facts, rep, tier, ctx):
         # what each critical section establishes before it mutates (Table M): a sequential execution refuses a create below
         # a missing parent, so must the operation inside its single region
         scratch = Report("t")
-        c01.table_m(facts, scratch, "M", "Mk", self_ty=w_.memory, trait=w_.trait.rsplit("::", 1)[1])
+        c01.table_m(facts, scratch, "M", "Mk", self_ty=w_.memory, trait=w_.trait.rsplit("::", 1)[1], atomic=True)
         for o in scratch.obligations:
             if o["rule"] == "M":
                 rep.ob(("A/" if asyncw else "") + "R16.8", o["fn"], o["key"].split("|")[2], o["ok"], o["detail"], o["loc"])
         rep.floor("hand-out obligations (%s)" % w_.tag, k, 3)
+        # open + read returns a value the file had at some point: the convenience reader takes what the handle yields up to
+        # its end, not a number of bytes fixed by an earlier, separate metadata() call
+        from . import c04 as _c04
+        from .c10 import _Prefixed as _Pf
+        _c04.read_to_string_rules(facts, _Pf(rep, "A") if asyncw else rep, w_, D, "R16.9")
     rep.assume("every access to the map goes through a guard (enforced by the type system: the map lives inside the RwLock)")
     rep.assume("per-call linearizability only: compositions in the path layer (get_parent + create_dir) are separate calls by design")
 
